@@ -81,3 +81,11 @@ META["C18"] = dict(
     note="porcupine v1.3.0 on bounded sub-histories plus a direct O(n^2) check of the forced order; the lifetimes clause depends on the real clock advancing.",
     technique="runtime monitoring: recorded call/return history checked for linearizability (porcupine + direct order check); write-log/byte diff for duplicates",
 )
+
+META["C04"] = dict(
+    text=("Held on the enumerated product request shape x path x validator outcome (with PRNG result fields) for new requests, restart requests and validation updates, "
+          "judged by joining the validator call log with the datastore write log and the transport/network call logs of the real manager."),
+    design_ref="DESIGN.md §2 C04",
+    note="Trusts the recording validator/transport/network/datastore doubles. The graphsync arrival path is emulated by calling the registered EventsHandler as the real transport does.",
+    technique="runtime monitoring: join of recorded call logs (validator, datastore writes, transport, network) against the validator's decisions",
+)
